@@ -15,6 +15,8 @@ type EnumOpts struct {
 	Format  string
 	Seed    int64
 	NValues int
+	// Sibling forces the sibling converter with enum handling off whenever the case admits one.
+	Sibling bool
 }
 
 type enumMember struct {
@@ -390,6 +392,28 @@ func EnumCase(r *rand.Rand, name string, o EnumOpts) (*Case, string) {
 	enums[pair.Tgt] = mk(tm)
 	cv.Spec = &vref.Spec{Seed: o.Seed, NValues: nv, Monitors: []string{"value"}, Conv: flags, Enums: enums, EnumPairs: []*vref.EnumPair{pair}}
 	c.Convs = []*Converter{cv}
+	if mustFail == "" && unexported == "" && sk == tk && o.Format != "variables" && (o.Sibling || r.Intn(3) == 0) {
+		// a sibling converter of the same run that converts the SAME enum types with enum handling switched off
+		// (enum no / enum:exclude): its values are preserved, and whichever of the two converters is built first
+		// must not decide for the other whether KA/KB are enums (converters are processed in name order)
+		sd := &Decl{Pkg: ea, Name: "Plain", Under: Struct(F("K", Named(KA)), F("N", Basic("int")), F("L", Slice(Named(KA))))}
+		td := &Decl{Pkg: eb, Name: "PlainT", Under: Struct(F("K", Named(KB)), F("N", Basic("int")), F("L", Slice(Named(KB))))}
+		ea.Decls = append(ea.Decls, sd)
+		eb.Decls = append(eb.Decls, td)
+		sibName := []string{"AConv", "ZConv"}[r.Intn(2)]
+		sibLine := []string{"enum no", "enum:exclude " + c.Root + "/ea:KA", "enum:exclude " + c.Root + "/e.:K."}[r.Intn(3)]
+		sib := &Converter{Pkg: conv, File: "conv.go", Name: sibName, Format: o.Format, Lines: []string{sibLine}, OutPkgPath: cv.OutPkgPath, OutPkgName: cv.OutPkgName, ImplName: sibName + "Impl"}
+		mn := sibName[:1] + "P"
+		sib.Methods = []*Method{{Name: mn, Params: []Param{{Name: "source", T: Named(sd), Role: "source"}}, Result: Named(td),
+			Spec: &vref.MethodSpec{Name: mn, Roles: []string{"source"}, Flags: vref.Flags{EnumOff: true}}}}
+		sib.Spec = &vref.Spec{Seed: o.Seed + 1, NValues: nv, Monitors: []string{"value"}, Conv: vref.Flags{EnumOff: true}}
+		if sibName == "AConv" {
+			c.Convs = []*Converter{sib, cv}
+		} else {
+			c.Convs = append(c.Convs, sib)
+		}
+		c.Feature("sibling", sibName+":"+strings.Fields(sibLine)[0])
+	}
 	c.Patterns = []string{"./" + cv.Pkg.Path}
 	c.Feature("names", nameMode)
 	c.Feature("kinds", sk+"->"+tk)
